@@ -139,32 +139,32 @@ fn eval_inner(target: &str, input: &str) -> Option<String> {
                 Err(e) => return Some(format!("pretty output {:?} does not reparse: {:?}", s, e)),
             };
             let a2 = xot2.add_name("a");
-            // every whitespace-only text node of the reparse that has no counterpart in the source
-            let space = xot2.xml_space_name();
-            let nodes: Vec<_> = xot2.descendants(root2).collect();
-            for n in nodes {
-                if let Some(t) = xot2.text_str(n) {
-                    if t.chars().all(|c| c == ' ' || c == '\n') && !doc.contains(&format!(">{}<", t)) {
-                        // added by pretty printing: where is it?
-                        let parent = xot2.parent(n).unwrap();
-                        let mut preserve = false;
-                        for anc in xot2.ancestors(parent) {
-                            if xot2.is_element(anc) {
-                                if let Some(v) = xot2.attributes(anc).get(space) {
-                                    preserve = v == "preserve";
-                                    break;
-                                }
-                            }
-                        }
-                        // mixed content: the parent or any element above it has a text child with content
-                        let mixed = xot2.ancestors(parent).any(|e| xot2.children(e).any(|c| xot2.text_str(c).map(|t| !t.trim().is_empty()).unwrap_or(false)));
-                        // suppressed: inside an element whose name is on the suppress list
-                        let suppressed = suppress_a && xot2.ancestors(parent).any(|e| xot2.element(e).map(|x| x.name()) == Some(a2));
-                        if preserve || mixed || suppressed {
-                            return Some(format!("pretty output {:?} adds whitespace inside {}", s, if preserve { "xml:space=preserve scope" } else if mixed { "mixed content" } else { "a suppressed element" }));
-                        }
-                    }
+            // the reparse is the original plus added whitespace-only text nodes; nothing is added inside an element that has
+            // text children (of any content), inside xml:space="preserve" scope or inside a suppressed element
+            fn head(xot: &Xot, n: xot::Node) -> String { if xot.is_document(n) { return "D".into(); } let c = deepeq::canon(xot, n, false); if xot.is_element(n) { c.split('[').next().unwrap_or("").to_string() } else { c } }
+            // flags inherited from above: inside preserve scope / inside a suppressed element / inside mixed content
+            fn cmp(xo: &Xot, o: xot::Node, xr: &Xot, r: xot::Node, preserve: bool, suppressed: bool, mixed: bool, sup_o: Option<xot::NameId>) -> Option<String> {
+                if head(xo, o) != head(xr, r) { return Some(format!("a node changed: {} became {}", head(xo, o), head(xr, r))); }
+                if !xo.is_element(o) && !xo.is_document(o) { return None; }
+                let space = xo.xml_space_name();
+                let preserve = match xo.attributes(o).get(space) { Some(v) => v == "preserve", None => preserve };
+                let suppressed = suppressed || xo.element(o).map(|e| Some(e.name()) == sup_o).unwrap_or(false);
+                let ok: Vec<xot::Node> = xo.children(o).collect();
+                let mixed = mixed || ok.iter().any(|c| xo.is_text(*c));
+                let nothing_added = preserve || suppressed || mixed;
+                let rk_all: Vec<xot::Node> = xr.children(r).collect();
+                let rk: Vec<xot::Node> = if nothing_added { rk_all } else { rk_all.into_iter().filter(|c| !xr.text_str(*c).map(|t| t.chars().all(|ch| ch == ' ' || ch == '\n')).unwrap_or(false)).collect() };
+                if rk.len() != ok.len() {
+                    return Some(format!("inside {} ({}) the children are no longer the original ones{}: {} became {} nodes", head(xo, o),
+                        if mixed { "mixed content: an element with text children, or below one" } else if preserve { "xml:space=preserve scope" } else if suppressed { "a suppressed element" } else { "element-only content" },
+                        if nothing_added { "" } else { " plus whitespace-only text nodes" }, ok.len(), rk.len()));
                 }
+                for (a, b) in ok.iter().zip(rk.iter()) { if let Some(w) = cmp(xo, *a, xr, *b, preserve, suppressed, mixed, sup_o) { return Some(w); } }
+                None
+            }
+            let _ = a2;
+            if let Some(why) = cmp(&xot, root, &xot2, root2, false, false, false, if suppress_a { Some(a_name) } else { None }) {
+                return Some(format!("pretty output {:?} of {:?}: {}", s, doc, why));
             }
             None
         }
@@ -221,6 +221,19 @@ fn eval_inner(target: &str, input: &str) -> Option<String> {
             if input.is_empty() {
                 return None;
             }
+            // "A:<ws>" / "B:<ws>": with consolidation off the text node stands directly before / behind a text node with content
+            if let Some((side, ws)) = input.split_once(':') {
+                if ws.is_empty() || (side != "A" && side != "B") { return None; }
+                let mut xot = Xot::new();
+                xot.set_text_consolidation(false);
+                let a = xot.add_name("a"); let b = xot.add_name("b");
+                let el = xot.new_element(a); let c1 = xot.new_element(b);
+                let t = xot.new_text(ws); let content = xot.new_text("x");
+                xot.append(el, c1).unwrap();
+                if side == "A" { xot.append(el, t).unwrap(); xot.append(el, content).unwrap(); } else { xot.append(el, content).unwrap(); xot.append(el, t).unwrap(); }
+                xot.remove_insignificant_whitespace(el);
+                return if xot.is_removed(t) || xot.is_removed(content) { Some(format!("text {:?} directly {} a sibling text node with content (consolidation off): a text node was removed although a sibling text node has other content", ws, if side == "A" { "in front of" } else { "behind" })) } else { None };
+            }
             let mut xot = Xot::new();
             let a = xot.add_name("a");
             let b = xot.add_name("b");
@@ -275,6 +288,7 @@ fn eval_inner(target: &str, input: &str) -> Option<String> {
         "wf_reject" => bounded::wf_reject(input),
         "ns_scope" => nsscope::check(input),
         "bytes_enc" => c02_bytes_enc(input),
+        "err_paths" => c06_err_paths(input),
         "line_ends" => bounded::line_ends(input),
         "level_order" => bounded::level_order(input),
         "tree_ops" => {
@@ -302,6 +316,8 @@ fn inputs(target: &str, large: bool) -> Vec<String> {
                         v.push(format!("<doc{}><p{}>Hello <b{}><c><d/></c></b> world</p></doc>", s1, s2, s3));
                         v.push(format!("S:<doc{}><a{}><b{}><c><d/></c></b></a><e><f/></e></doc>", s1, s2, s3));
                         v.push(format!("S:<doc{}><e{}><a><b{}><c/></b></a></e></doc>", s1, s2, s3));
+                        // text children that are whitespace only are text children too
+                        v.push(format!("<doc{}><a{}> </a><p{}><i/> <i/></p><q><r/></q></doc>", s1, s2, s3));
                     }
                 }
             }
@@ -371,6 +387,7 @@ fn inputs(target: &str, large: bool) -> Vec<String> {
         "char_ref" => bounded::ref_strings(large),
         "wf_reject" => bounded::wf_inputs(),
         "ns_scope" => nsscope::inputs(large),
+        "err_paths" => { let mut v = Vec::new(); for op in ["append", "prepend", "insert_after", "insert_before", "replace", "wrap", "unwrap", "any_append", "append_text", "append_element", "append_comment", "append_pi", "attr_node", "ns_node"] { for kind in ["text", "comment", "pi", "attr", "ns", "doc"] { for ch in ['x', '\u{e9}', '\u{20ac}', '\u{1f600}'] { for n in [1usize, 13, 39, 40, 41, 64, 200] { v.push(format!("{}|{}|{}|{}", op, kind, ch, n)); } } } } v }
         "bytes_enc" => { let mut v = Vec::new(); for e in ["utf8", "utf8bom", "utf16le", "utf16be", "utf16lebom", "utf16bebom", "latin1", "cp1252"] { for d in 0..6 { for decl in 0..2 { v.push(format!("{}|{}|{}", e, d, decl)); } } } v }
         "line_ends" => bounded::line_end_inputs(large),
         "level_order" => { let mut v = Vec::new(); for d in 0..3 { for n in 0..12 { v.push(format!("{} {}", d, n)); } } v }
@@ -414,7 +431,9 @@ fn inputs(target: &str, large: bool) -> Vec<String> {
             v.extend(strings(CRIT, if large { 4 } else { 3 }));
             v
         }
-        "strip_ws" => strings(&[' ', '\t', '\n', '\r', '\u{a0}', '\u{2003}', 'x'], if large { 4 } else { 3 }),
+        "strip_ws" => { let mut v = strings(&[' ', '\t', '\n', '\r', '\u{a0}', '\u{2003}', 'x'], if large { 4 } else { 3 });
+            for ws in strings(&[' ', '\t', '\n', '\r'], 2) { if !ws.is_empty() { v.push(format!("A:{}", ws)); v.push(format!("B:{}", ws)); } }
+            v }
         "xml_id" => strings(&[' ', 'x', 'y', '\t'], if large { 7 } else { 5 }),
         _ => {
             let mut v = strings(CRIT, if large { 4 } else { 3 });
@@ -1829,6 +1848,14 @@ mod navaxes {
             // for an attribute / namespace node: what precedes it are its element and everything before that
             checks.push(("reverse_preorder", got, h(want)));
         }
+        {   // all_reverse_preorder: the node, then every node (namespace and attribute nodes included) before it, back to the root
+            let ord = t.order(n, true);
+            if let Some(i) = ord.iter().position(|x| *x == n) {
+                let want: Vec<usize> = ord[..=i].iter().rev().copied().collect();
+                let got: Vec<Node> = xot.all_reverse_preorder(nd).take(LIMIT).collect();
+                checks.push(("all_reverse_preorder", got, h(want)));
+            }
+        }
         if let Some(p) = t.parent[n] { let want = t.nk(p).iter().position(|x| *x == n); if xot.child_index(t.h[p], nd) != want { return Some(format!("{} node {}: child_index {:?}, expected {:?}", spec, n, xot.child_index(t.h[p], nd), want)); } }
         for (label, got, want) in checks {
             if got.len() >= LIMIT { return Some(format!("{} node {}: {} does not terminate", spec, n, label)); }
@@ -2008,6 +2035,59 @@ fn c09_qname_default_ns() -> Option<String> {
 // namespace), and a second time - as an element outside that scope (eo) or inside it (ei), as an attribute outside
 // (ao: on a no-namespace element under r), on the first k itself (ai) or on a sibling of k inside the scope (an) -
 // met by a document-order walk before or after the first use; then create_missing_prefixes (twice)
+// (C06) refused calls: every manipulation entry point called with a node that cannot be a parent / reference (a text, comment
+// or PI node with long content in one- to four-byte characters, an attribute or namespace node, the document node): the call
+// may refuse, but must not panic, and a refusal leaves the document as it was
+#[allow(dead_code)]
+fn c06_err_paths(input: &str) -> Option<String> {
+    let f: Vec<&str> = input.split('|').collect();
+    if f.len() != 4 { return None; }
+    let (op, kind) = (f[0], f[1]);
+    let ch = f[2].chars().next()?;
+    let n: usize = f[3].parse().ok()?;
+    let content: String = std::iter::repeat(ch).take(n).collect();
+    let mut xot = Xot::new();
+    let root = xot.parse("<doc xmlns:p=\"urn:p\" a=\"1\"><e>t</e><f/></doc>").ok()?;
+    let doc_el = xot.document_element(root).ok()?;
+    let e = xot.first_child(doc_el)?;
+    let odd = match kind {
+        "text" => { let t = xot.new_text(&content); xot.append(doc_el, t).ok()?; t }
+        "comment" => { let c = xot.new_comment(&content); xot.append(doc_el, c).ok()?; c }
+        "pi" => { let t = xot.add_name("pi"); let p = xot.new_processing_instruction(t, Some(&content)); xot.append(doc_el, p).ok()?; p }
+        "attr" => { let nm = xot.add_name("long"); xot.attributes_mut(doc_el).insert(nm, content.clone()); xot.attributes(doc_el).get_node(nm)? }
+        "ns" => { let pre = xot.add_prefix("q"); let ns = xot.add_namespace(&format!("urn:{}", content)); xot.namespaces_mut(doc_el).insert(pre, ns); xot.namespaces(doc_el).get_node(pre)? }
+        "doc" => root,
+        _ => return None,
+    };
+    let before = xot.to_string(root).ok()?;
+    let name = xot.add_name("w");
+    let fresh = xot.new_element(name);
+    let r = std::panic::catch_unwind(std::panic::AssertUnwindSafe(|| -> Result<(), xot::Error> {
+        match op {
+            "append" => xot.append(odd, fresh),
+            "prepend" => xot.prepend(odd, fresh),
+            "insert_after" => xot.insert_after(odd, fresh),
+            "insert_before" => xot.insert_before(odd, fresh),
+            "replace" => xot.replace(odd, e),
+            "wrap" => xot.element_wrap(odd, name).map(|_| ()),
+            "unwrap" => xot.element_unwrap(odd),
+            "any_append" => xot.any_append(odd, fresh).map(|_| ()),
+            "append_text" => xot.append_text(odd, "z"),
+            "append_element" => xot.append_element(odd, name),
+            "append_comment" => xot.append_comment(odd, "z"),
+            "append_pi" => xot.append_processing_instruction(odd, name, None),
+            "attr_node" => { let an = xot.new_attribute_node(name, "v".to_string()); xot.append_attribute_node(odd, an).map(|_| ()) }
+            "ns_node" => { let pre = xot.add_prefix("zz"); let ns = xot.add_namespace("urn:zz"); let nn = xot.new_namespace_node(pre, ns); xot.append_namespace_node(odd, nn).map(|_| ()) }
+            _ => Ok(()),
+        }
+    }));
+    match r {
+        Err(_) => Some(format!("{} with a {} node of {} x {:?} as parent / reference panics", op, kind, n, ch)),
+        Ok(Err(_)) => { let after = xot.to_string(root).ok()?; if after != before { Some(format!("{} with a {} node as parent / reference fails but changes the document: {:?} became {:?}", op, kind, before, after)) } else { None } }
+        Ok(Ok(())) => None,
+    }
+}
+
 // (C02) "supplied as bytes in a declared encoding": the same document as text and as bytes in UTF-8 / UTF-16 (either byte
 // order, with and without byte-order mark) / ISO-8859-1 / windows-1252 must parse to deep-equal trees
 #[allow(dead_code)]
